@@ -221,6 +221,17 @@ def run_random(ns, res, spec):
                 table = [r[:1] for r in table]
             before = res.counters.get('representable_roundtrips', 0)
             check_table(ns, res, table, policy, dlm, enc, ls, 'random')
+            # a header line is output as well: a column name holding the delimiter must be reported under simple / whitespace
+            if policy in ('simple', 'whitespace') and dlm and n % 3 == 0:
+                width = len(table[0])
+                header = ['h%d' % j + (dlm if rng.random() < 0.4 else '') for j in range(width)]
+                body = [['v'] * width]
+                if encodable([header], dlm, enc):
+                    payload, wwarn, werr = write_real(ns, body, dlm, policy, enc, ls, header=header)
+                    res.evaluations += 1
+                    res.count('header_delimiter_clause_checks')
+                    if werr is None and any(dlm in h for h in header) and 'sep' not in util.warning_kinds(wwarn):
+                        res.violation('delimiter-in-header-silent', 'header %r holding the delimiter %r written under %s without a warning (%r)' % (header, dlm, policy, wwarn), {'table': body, 'header': header, 'policy': policy, 'dlm': dlm, 'encoding': enc, 'line_sep': ls, 'engine': 'py'})
             if res.counters.get('representable_roundtrips', 0) > before:
                 res.nontrivial('rnd', repr(table), policy, dlm, enc, ls)
                 if enc is not None and n % 4 == 0:
@@ -376,7 +387,7 @@ def summarize(tier, seed, m):
     return {
         'rule': 'exhaustive small tables (1x1 with fields up to length %d, 1x2 / 2x1 up to length 2, 2x2 and ragged up to length 1) over {quote, space, tab, CR, LF, a, e-acute, delimiter characters} for each of %d dialects (policies simple/quoted/quoted_rfc x delimiters %r, whitespace, monocolumn) x line separators x encodings {None, utf-8, latin-1}; random larger tables incl. None cells; a table holding all 256 latin-1 code points; file-to-file leg through query_csv; JS writer/reader leg. Representability decided by the reference writer/reader pair. distinct_nontrivial = distinct representable (table, dialect) cases containing at least one special character.' % (3 if tier == 'quick' else 4, len(dialects()), DELIMS),
         'exhaustive': True,
-        'required': ['js_stream_roundtrips', 'representable_roundtrips', 'delimiter_clause_checks', 'none_clause_checks', 'file_to_file_runs', 'latin1_all_byte_tables'],
+        'required': ['header_delimiter_clause_checks', 'js_stream_roundtrips', 'representable_roundtrips', 'delimiter_clause_checks', 'none_clause_checks', 'file_to_file_runs', 'latin1_all_byte_tables'],
         'assumptions': ['rv.model.refcsv write_table/read_text decide representability exactly as the quantifier prescribes'],
     }
 
